@@ -27,7 +27,7 @@ TNext ==
                           /\ UNCHANGED seen
        [] r.e = "eng" /\ r.op = "parse" -> /\ ParseKeep(r.eid + 1, 0, r.allocs) /\ PoolObs(r) /\ r.allocs > 0
                                            /\ seen' = [seen EXCEPT ![r.eid + 1] = ""] /\ UNCHANGED oracle
-       [] r.e = "inspect" -> /\ Inspect(r.eid + 1) /\ r.tokens > 0 /\ r.tokens <= held[r.eid + 1][3] - held[r.eid + 1][2] + 1
+       [] r.e = "inspect" -> /\ Inspect(r.eid + 1) /\ r.tokens > 0 /\ r.dirty = 0           \* a parsed tree that no writer has touched carries clean tokens, however often the pool's memory was used before /\ r.tokens <= held[r.eid + 1][3] - held[r.eid + 1][2] + 1
                              /\ (IF seen[r.eid + 1] = "" THEN TRUE ELSE seen[r.eid + 1] = r.sum)      \* the tree is intact
                              /\ seen' = [seen EXCEPT ![r.eid + 1] = r.sum] /\ UNCHANGED oracle
        [] r.e = "eng" /\ r.op = "free" -> /\ (IF held[r.eid + 1] # Nothing THEN LetGo(r.eid + 1) ELSE Same) /\ UNCHANGED <<oracle, seen>>
